@@ -119,6 +119,14 @@ def build(ctx, rnd, gens):
                 step = anncases.step_of(b1, rnd, order, dict(base, extra=[flag]), must=False)
                 step["expect"] = "usage"
                 add(sel, [step], cls="usage-mixed" + flag, dot=dot, order=order)
+        # a holder / contributor with a line break in it cannot be one notice: an invalid option value
+        for what in ("holders", "con"):
+            step = anncases.step_of(b1, rnd, names, base, must=False)
+            step["req"][what] = ["Jane Doe\nand friends"]
+            # (a notice is built before any file is looked at: a usage error; a contributor line that does not read back
+            # is found per file: every file refused, exit status 1 - both leave the tree as it was)
+            step["expect"] = "usage" if what == "holders" else "fail"
+            add(good, [step], cls=("usage-" if what == "holders" else "") + "line-break-in-" + what, dot=dot)
         # nothing requested at all
         step = anncases.step_of(b1, rnd, names, base, must=False)
         step["req"].update({"holders": [], "lic": [], "con": [], "years": [2024]})
